@@ -342,6 +342,22 @@ def run(F, R, tier):
                         "threads are attributed to each other" % (fname, expr_str(kv), w))
     R.floor("C06.R6", n_lm, 3, "local_map accesses (update, lookup, delete)")
 
+    # every record the kernel program stores replaces whatever is under that key (flags 0 = BPF_ANY): a record left behind by an earlier
+    # connection on the same source port / by an earlier connect of the same thread must never survive a new connect
+    n_upd = 0
+    for fname, fn in fns.items():
+        for n in walk(fn):
+            if n.get("kind") == "CallExpr" and strip(n["inner"][0]).get("ref") == "bpf_map_update_elem" and len(n["inner"]) > 4:
+                mp = expr_str(n["inner"][1])
+                if "audit_map" in mp or "local_map" in mp:
+                    n_upd += 1
+                    fl = expr_str(n["inner"][4])
+                    R.check(fl in ("0", "BPF_ANY"), "C06.R2", R.key("C06.R2", fname, "update-overwrites:%s" % mp.strip("&")), "%s:%s" % (src, n.get("line")),
+                            "%s: bpf_map_update_elem(%s, .., flags %s) replaces an existing record" % (fname, mp, fl),
+                            "%s stores into %s with flags `%s`: with BPF_NOEXIST a stale record under the same key is kept and the new "
+                            "connection is attributed to the previous caller" % (fname, mp, fl))
+    R.floor("C06.R2", n_upd, 3, "record stores into audit_map / local_map")
+
     # ------------------------------------------------------------------ R3 layouts
     lay = E["layouts"]
     td = E["typedefs"]
